@@ -94,9 +94,10 @@ func rootObj(info *types.Info, e ast.Expr) types.Object {
 }
 
 // stmts analyses a statement list executed once per iteration.
-//   keys   – objects that are determined by the iteration's key
-//   locals – objects that live only within one iteration
-//   top    – true at the loop level (return/break are order-dependent there), false inside an inlined callee
+//
+//	keys   – objects that are determined by the iteration's key
+//	locals – objects that live only within one iteration
+//	top    – true at the loop level (return/break are order-dependent there), false inside an inlined callee
 func (cc *commuteCtx) stmts(p *packages.Package, list []ast.Stmt, keys, locals map[types.Object]bool, top bool, where string) {
 	info := p.TypesInfo
 	for _, s := range list {
